@@ -40,30 +40,51 @@ def MetaV3.good (m : MetaV3) : Prop := strOk m.name ∧ ∀ c, m.config = some c
 
 def AField.good (a : AField) : Prop := a.field.wf ∧ AField.shapeOk a
 
-theorem strOk_kName : strOk kName := ⟨by decide, by decide⟩
-theorem strOk_kConfiguration : strOk kConfiguration := ⟨by decide, by decide⟩
-theorem strOk_kMustUnderstand : strOk kMustUnderstand := ⟨by decide, by decide⟩
+theorem validUtf8_ascii (s : Str) (h : ∀ b ∈ s, b < 128) : validUtf8 s = true := by
+  induction s with
+  | nil => rfl
+  | cons b r ih =>
+    have hb : b < 128 := h b (List.mem_cons_self ..)
+    unfold validUtf8
+    simp only [show b < 128 from hb, if_true]
+    exact ih (fun x hx => h x (List.mem_cons_of_mem _ hx))
+
+/-- ASCII strings are fine (NB: `decide` on `validUtf8` of a literal blows up beyond a few bytes) -/
+theorem strOk_ascii (s : Str) (h : ∀ b ∈ s, b < 128) : strOk s :=
+  ⟨fun b hb => Nat.lt_trans (h b hb) (by decide), validUtf8_ascii s h⟩
+
+theorem strOk_kName : strOk kName := strOk_ascii _ (by decide)
+theorem strOk_kConfiguration : strOk kConfiguration := strOk_ascii _ (by decide)
+theorem strOk_kMustUnderstand : strOk kMustUnderstand := strOk_ascii _ (by decide)
 
 theorem metaV3_toJ_wf (m : MetaV3) (h : MetaV3.good m) : m.toJ.wf := by
   obtain ⟨n, c, mu⟩ := m
   obtain ⟨h1, h2⟩ := h
   simp only at h1 h2
+  have hn : (J.str n).wf := (str_wf_iff n).2 h1
   cases c with
   | none =>
     cases mu
-    · simp only [MetaV3.toJ, Option.isNone_none, Bool.and_false, Bool.false_eq_true, if_false, List.append_nil,
-        List.cons_append, List.nil_append, obj_wf_iff, wfKVs, keysDistinct, J.wf, and_true, true_and]
-      exact ⟨⟨h1, strOk_kMustUnderstand⟩, by decide⟩
-    · simp only [MetaV3.toJ, Option.isNone_none, Bool.and_true, if_true, str_wf_iff]; exact h1
+    · have e : MetaV3.toJ ⟨n, none, false⟩ = .obj [(kName, .str n), (kMustUnderstand, .bool false)] := rfl
+      rw [e, obj_wf_iff]
+      refine ⟨?_, by unfold keysDistinct; simp only [List.map_cons, List.map_nil]; decide⟩
+      simp only [wfKVs, J.wf, and_true]
+      exact ⟨strOk_kName, h1, strOk_kMustUnderstand⟩
+    · exact hn
   | some c =>
     have hc := h2 c rfl
     cases mu
-    · simp only [MetaV3.toJ, Option.isNone_some, Bool.false_and, Bool.false_eq_true, if_false, List.append_nil,
-        List.cons_append, List.nil_append, obj_wf_iff, wfKVs, keysDistinct, J.wf, and_true, true_and]
-      exact ⟨⟨h1, strOk_kConfiguration, hc, strOk_kMustUnderstand⟩, by decide⟩
-    · simp only [MetaV3.toJ, Option.isNone_some, Bool.false_and, Bool.false_eq_true, if_false, List.append_nil,
-        List.cons_append, List.nil_append, obj_wf_iff, wfKVs, keysDistinct, J.wf, and_true, true_and]
-      exact ⟨⟨h1, strOk_kConfiguration, hc⟩, by decide⟩
+    · have e : MetaV3.toJ ⟨n, some c, false⟩ =
+          .obj [(kName, .str n), (kConfiguration, .obj c), (kMustUnderstand, .bool false)] := rfl
+      rw [e, obj_wf_iff]
+      refine ⟨?_, by unfold keysDistinct; simp only [List.map_cons, List.map_nil]; decide⟩
+      simp only [wfKVs, J.wf, and_true]
+      exact ⟨strOk_kName, h1, strOk_kConfiguration, hc, strOk_kMustUnderstand⟩
+    · have e : MetaV3.toJ ⟨n, some c, true⟩ = .obj [(kName, .str n), (kConfiguration, .obj c)] := rfl
+      rw [e, obj_wf_iff]
+      refine ⟨?_, by unfold keysDistinct; simp only [List.map_cons, List.map_nil]; decide⟩
+      simp only [wfKVs, J.wf, and_true]
+      exact ⟨strOk_kName, h1, strOk_kConfiguration, hc⟩
 
 theorem metaV3_ofJ_good (j : J) (hj : j.wf) (m : MetaV3) (h : MetaV3.ofJ j = some m) : MetaV3.good m := by
   unfold MetaV3.ofJ at h
@@ -77,32 +98,296 @@ theorem metaV3_ofJ_good (j : J) (hj : j.wf) (m : MetaV3) (h : MetaV3.ofJ j = som
       next n hn =>
         have hnw := wf_of_lookup o hj.1 _ _ hn
         rw [str_wf_iff] at hnw
-        split at h
-        next c mu hc hmu =>
-          cases h
-          refine ⟨hnw, ?_⟩
-          intro c' hc'
-          simp only at hc'
-          subst hc'
-          split at hc
-          · cases hc
-          · cases hc
-          · rename_i c'' hl
-            cases hc
-            have := wf_of_lookup o hj.1 _ _ hl
-            rwa [obj_wf_iff] at this
-          · cases hc
-        · cases h
+        have hcw := wf_of_lookup o hj.1 kConfiguration
+        rcases hc : lookup o kConfiguration with _ | (_ | _ | _ | _ | _ | c) <;>
+        rcases hm : lookup o kMustUnderstand with _ | (_ | b | _ | _ | _ | _) <;>
+        simp only [hc, hm, Option.some.injEq, reduceCtorEq] at h <;>
+        subst h <;> refine ⟨hnw, ?_⟩ <;> intro c' hc' <;> cases hc' <;>
+        (have := hcw _ hc; rwa [obj_wf_iff] at this)
       · cases h
-  all_goals first
-    | cases h
-    | (cases h
-       simp only [arr_wf_iff, List.mem_cons, List.not_mem_nil, or_false, forall_eq_or_imp, forall_eq, str_wf_iff,
-         obj_wf_iff] at hj
-       refine ⟨hj.1, ?_⟩
-       intro c' hc'
-       first
-         | cases hc'
-         | (cases hc'; first | exact hj.2.1 | exact hj.2))
+  all_goals
+    cases h
+    try
+      simp only [arr_wf_iff, List.mem_cons, List.not_mem_nil, or_false, forall_eq_or_imp, forall_eq, str_wf_iff,
+        obj_wf_iff] at hj
+      refine ⟨by first | exact hj | exact hj.1, ?_⟩
+      intro c' hc'
+      first
+        | (cases hc'; done)
+        | (cases hc'; first | exact hj.2.1 | exact hj.2)
+
+theorem afield_toJ_wf (a : AField) (h : AField.good a) : a.toJ.wf := by
+  obtain ⟨f, mu⟩ := a
+  obtain ⟨h1, h2⟩ := h
+  match f, h1, h2 with
+  | .obj o, h1, h2 =>
+    simp only [AField.shapeOk] at h2
+    simp only [obj_wf_iff] at h1
+    simp only [AField.toJ, obj_wf_iff, wfKVs, J.wf, true_and]
+    refine ⟨⟨strOk_kMustUnderstand, h1.1⟩, ?_⟩
+    unfold keysDistinct
+    rw [List.map_cons, List.nodup_cons]
+    exact ⟨(lookup_eq_none_iff o _).1 h2, h1.2⟩
+  | .null, h1, _ | .bool _, h1, _ | .num _, h1, _ | .str _, h1, _ | .arr _, h1, _ => exact h1
+
+theorem afield_ofJ_good (j : J) (h : j.wf) : AField.good (AField.ofJ j) := by
+  match j, h with
+  | .obj o, h =>
+    rw [obj_wf_iff] at h
+    simp only [AField.ofJ, AField.good, AField.shapeOk, obj_wf_iff]
+    exact ⟨⟨wfKVs_filter _ _ h.1, keysDistinct_filter _ _ h.2⟩, lookup_without_self o _⟩
+  | .null, h | .bool _, h | .num _, h | .str _, h | .arr _, h =>
+    exact ⟨h, rfl⟩
+
+/-- members of the additional fields of a parsed document -/
+theorem mem_extrasOf (known : List Str) (o : Obj) (x : Str × AField) (h : x ∈ extrasOf known o) :
+    ∃ v, (x.1, v) ∈ o ∧ x.1 ∉ known ∧ x.2 = AField.ofJ v := by
+  unfold extrasOf at h
+  rcases mem_foldl_insertExtra_sub AField.ofJ _ _ x h with h | ⟨kv, hkv, rfl⟩
+  · cases h
+  · rw [List.mem_filter] at hkv
+    exact ⟨kv.2, hkv.1, by simpa using hkv.2, rfl⟩
+
+theorem extrasOf_mem (known : List Str) (o : Obj) (hd : keysDistinct o) (k : Str) (v : J) (h : (k, v) ∈ o)
+    (hk : k ∉ known) : (k, AField.ofJ v) ∈ extrasOf known o := by
+  unfold extrasOf
+  have hd' := keysDistinct_filter o (fun kv => !known.contains kv.1) hd
+  exact mem_foldl_insertExtra AField.ofJ _ [] hd' (k, v) (List.mem_filter.2 ⟨h, by simpa using hk⟩)
+
+theorem extrasOf_sorted (known : List Str) (o : Obj) : sortedKeys (extrasOf known o) := by
+  unfold extrasOf
+  exact foldl_insertExtra_sortedKeys _ _ _ (by simp [sortedKeys])
+
+theorem extrasOf_good (known : List Str) (o : Obj) (h : wfKVs o) :
+    ∀ kv ∈ extrasOf known o, strOk kv.1 ∧ AField.good kv.2 ∧ kv.1 ∉ known := by
+  intro kv hkv
+  obtain ⟨v, hv, hk, e⟩ := mem_extrasOf known o kv hkv
+  have := (wfKVs_iff o).1 h _ hv
+  exact ⟨this.1, e ▸ afield_ofJ_good v this.2, hk⟩
+
+structure ArrayDoc.good (d : ArrayDoc) : Prop where
+  shape : ∀ t ∈ d.shape, isU64Tok t = true ∧ tokOk t
+  dt : MetaV3.good d.dataType
+  cg : MetaV3.good d.chunkGrid
+  ck : MetaV3.good d.cke
+  fill : d.fill.wf
+  codecs : ∀ c ∈ d.codecs, MetaV3.good c
+  attrs : wfKVs d.attrs ∧ keysDistinct d.attrs
+  st : ∀ c ∈ d.st, MetaV3.good c
+  dn : ∀ ns, d.dimNames = some ns → ∀ n ∈ ns, ∀ s, n = some s → strOk s
+  extra : ∀ kv ∈ d.extra, strOk kv.1 ∧ AField.good kv.2 ∧ kv.1 ∉ arrayKeys
+  sorted : sortedKeys d.extra
+
+structure GroupDoc.good (d : GroupDoc) : Prop where
+  attrs : wfKVs d.attrs ∧ keysDistinct d.attrs
+  extra : ∀ kv ∈ d.extra, strOk kv.1 ∧ AField.good kv.2 ∧ kv.1 ∉ groupKeys
+  sorted : sortedKeys d.extra
+
+theorem arrayDoc_roundtrip_good (d : ArrayDoc) (h : d.good) : ArrayDoc.ofJ d.toJ = some d :=
+  arrayDoc_ofJ_toJ d (fun t ht => (h.shape t ht).1) (fun kv hkv => (h.extra kv hkv).2.2) h.sorted
+    (fun kv hkv => (h.extra kv hkv).2.1.2)
+
+theorem groupDoc_roundtrip_good (d : GroupDoc) (h : d.good) : GroupDoc.ofJ d.toJ = some d :=
+  groupDoc_ofJ_toJ d (fun kv hkv => (h.extra kv hkv).2.2) h.sorted (fun kv hkv => (h.extra kv hkv).2.1.2)
+
+theorem metaList_good (j : J) (hj : j.wf) (l : List MetaV3) (h : metaList j = some l) : ∀ c ∈ l, MetaV3.good c := by
+  unfold metaList at h
+  split at h
+  · rename_i xs
+    rw [arr_wf_iff] at hj
+    intro c hc
+    obtain ⟨x, hx, e⟩ := mapM_some_mem _ _ _ h c hc
+    exact metaV3_ofJ_good x (hj x hx) c e
+  · cases h
+
+theorem dimNamesOfJ_good (j : J) (hj : j.wf) (dn : Option (List (Option Str))) (h : dimNamesOfJ j = some dn) :
+    ∀ ns, dn = some ns → ∀ n ∈ ns, ∀ s, n = some s → strOk s := by
+  unfold dimNamesOfJ at h
+  split at h
+  · cases h; intro ns e; cases e
+  · rename_i xs
+    rw [arr_wf_iff] at hj
+    intro ns e n hn s hs
+    subst e
+    simp only [Option.map_eq_some_iff] at h
+    obtain ⟨ns', h, e⟩ := h
+    cases e
+    obtain ⟨x, hx, e⟩ := mapM_some_mem _ _ _ h n hn
+    subst hs
+    split at e
+    · cases e
+    · cases e
+      have := hj _ hx
+      rwa [str_wf_iff] at this
+    · cases e
+  · cases h
+
+theorem arrayDoc_ofJ_good (j : J) (hj : j.wf) (d : ArrayDoc) (h : ArrayDoc.ofJ j = some d) : d.good := by
+  match j, hj, h with
+  | .obj o, hj, h =>
+    rw [obj_wf_iff] at hj
+    have hw := wf_of_lookup o hj.1
+    obtain ⟨hzf, hnt, hsh, hshTok, ⟨dt, hdt, hdt'⟩, ⟨cg, hcg, hcg'⟩, ⟨ck, hck, hck'⟩, hfill, ⟨cs, hcs, hcs'⟩, hattrs, hst, hdn, hextra⟩ :=
+      arrayDoc_ofJ_inv o d h
+    refine ⟨?_, metaV3_ofJ_good _ (hw _ _ hdt) _ hdt', metaV3_ofJ_good _ (hw _ _ hcg) _ hcg',
+      metaV3_ofJ_good _ (hw _ _ hck) _ hck', hw _ _ hfill, metaList_good _ (hw _ _ hcs) _ hcs', ?_, ?_, ?_,
+      hextra ▸ extrasOf_good _ _ hj.1, hextra ▸ extrasOf_sorted _ _⟩
+    · intro t ht
+      refine ⟨hshTok t ht, ?_⟩
+      have := hw _ _ hsh
+      rw [arr_wf_iff] at this
+      have := this (.num t) (List.mem_map_of_mem ht)
+      rwa [num_wf_iff] at this
+    · rcases hattrs with ⟨_, e⟩ | ha
+      · rw [e]; exact ⟨by simp [wfKVs], by simp [keysDistinct]⟩
+      · have := hw _ _ ha
+        rwa [obj_wf_iff] at this
+    · rcases hst with ⟨_, e⟩ | ⟨js, hs, hs'⟩
+      · rw [e]; intro c hc; cases hc
+      · exact metaList_good _ (hw _ _ hs) _ hs'
+    · rcases hdn with ⟨_, e⟩ | ⟨jn, hn, hn'⟩
+      · rw [e]; intro ns e; cases e
+      · exact dimNamesOfJ_good _ (hw _ _ hn) _ hn'
+  | .null, _, h | .bool _, _, h | .num _, _, h | .str _, _, h | .arr _, _, h => simp [ArrayDoc.ofJ] at h
+
+theorem groupDoc_ofJ_good (j : J) (hj : j.wf) (d : GroupDoc) (h : GroupDoc.ofJ j = some d) : d.good := by
+  match j, hj, h with
+  | .obj o, hj, h =>
+    rw [obj_wf_iff] at hj
+    have hw := wf_of_lookup o hj.1
+    obtain ⟨hzf, hnt, hcm, hattrs, hextra⟩ := groupDoc_ofJ_inv o d h
+    refine ⟨?_, hextra ▸ extrasOf_good _ _ hj.1, hextra ▸ extrasOf_sorted _ _⟩
+    rcases hattrs with ⟨_, e⟩ | ha
+    · rw [e]; exact ⟨by simp [wfKVs], by simp [keysDistinct]⟩
+    · have := hw _ _ ha
+      rwa [obj_wf_iff] at this
+  | .null, _, h | .bool _, _, h | .num _, _, h | .str _, _, h | .arr _, _, h => simp [GroupDoc.ofJ] at h
+
+/-! ### the printed documents are well-formed JSON -/
+
+theorem tokOk_three : tokOk ['3'] := by
+  have := NumTok.tokOk_natTok 3
+  have e : FillMeta.natTok 3 = ['3'] := by decide
+  rwa [e] at this
+
+theorem arrayKeys_strOk : ∀ k ∈ arrayKeys, strOk k := by
+  have : ∀ k ∈ arrayKeys, ∀ b ∈ k, b < 128 := by decide
+  exact fun k hk => strOk_ascii k (this k hk)
+
+theorem groupKeys_strOk : ∀ k ∈ groupKeys, strOk k := by
+  have : ∀ k ∈ groupKeys, ∀ b ∈ k, b < 128 := by decide
+  exact fun k hk => strOk_ascii k (this k hk)
+
+theorem extraKVs_wf (e : List (Str × AField)) (h : ∀ kv ∈ e, strOk kv.1 ∧ AField.good kv.2) : wfKVs (extraKVs e) := by
+  rw [wfKVs_iff]
+  intro kv hkv
+  unfold extraKVs at hkv
+  obtain ⟨x, hx, rfl⟩ := List.mem_map.1 hkv
+  exact ⟨(h x hx).1, afield_toJ_wf _ (h x hx).2⟩
+
+theorem extraKVs_keys (e : List (Str × AField)) : (extraKVs e).map (·.1) = e.map (·.1) := by
+  unfold extraKVs; rw [List.map_map]; rfl
+
+theorem keysDistinct_known_extra (known : List Str) (hn : known.Nodup) (a : Obj) (ha : (a.map (·.1)).Sublist known)
+    (e : List (Str × AField)) (hs : sortedKeys e) (he : ∀ kv ∈ e, kv.1 ∉ known) : keysDistinct (a ++ extraKVs e) := by
+  unfold keysDistinct
+  rw [List.map_append, extraKVs_keys, List.nodup_append]
+  refine ⟨hn.sublist ha, sortedKeys_nodup e hs, ?_⟩
+  intro x hx y hy e'
+  subst e'
+  obtain ⟨kv, hkv, rfl⟩ := List.mem_map.1 hy
+  exact he kv hkv (ha.subset hx)
+
+theorem metaList_toJ_wf (l : List MetaV3) (h : ∀ c ∈ l, MetaV3.good c) : (J.arr (l.map MetaV3.toJ)).wf := by
+  rw [arr_wf_iff]
+  intro x hx
+  obtain ⟨c, hc, rfl⟩ := List.mem_map.1 hx
+  exact metaV3_toJ_wf c (h c hc)
+
+theorem dimNamesToJ_wf (ns : List (Option Str)) (h : ∀ n ∈ ns, ∀ s, n = some s → strOk s) : (dimNamesToJ ns).wf := by
+  unfold dimNamesToJ
+  rw [arr_wf_iff]
+  intro x hx
+  obtain ⟨n, hn, rfl⟩ := List.mem_map.1 hx
+  cases n with
+  | none => simp only [J.wf]
+  | some s => simp only [J.wf]; exact h _ hn s rfl
+
+theorem arrayDoc_known_wf (d : ArrayDoc) (h : d.good) : ∀ kv ∈ d.knownKVs, kv.2.wf := by
+  intro kv hkv
+  simp only [ArrayDoc.knownKVs, List.mem_append, List.mem_cons, List.not_mem_nil, or_false] at hkv
+  rcases hkv with ((hkv | hkv) | hkv) | hkv
+  · rcases hkv with rfl | rfl | rfl | rfl | rfl | rfl | rfl | rfl
+    · exact (num_wf_iff _).2 tokOk_three
+    · exact (str_wf_iff _).2 (strOk_ascii _ (by decide))
+    · rw [arr_wf_iff]
+      intro x hx
+      obtain ⟨t, ht, rfl⟩ := List.mem_map.1 hx
+      exact (num_wf_iff _).2 (h.shape t ht).2
+    · exact metaV3_toJ_wf _ h.dt
+    · exact metaV3_toJ_wf _ h.cg
+    · exact metaV3_toJ_wf _ h.ck
+    · exact h.fill
+    · exact metaList_toJ_wf _ h.codecs
+  · split at hkv
+    · cases hkv
+    · simp only [List.mem_cons, List.not_mem_nil, or_false] at hkv
+      subst hkv
+      exact (obj_wf_iff _).2 h.attrs
+  · split at hkv
+    · cases hkv
+    · simp only [List.mem_cons, List.not_mem_nil, or_false] at hkv
+      subst hkv
+      exact metaList_toJ_wf _ h.st
+  · split at hkv
+    · rename_i ns hns
+      simp only [List.mem_cons, List.not_mem_nil, or_false] at hkv
+      subst hkv
+      exact dimNamesToJ_wf ns (h.dn ns hns)
+    · cases hkv
+
+theorem arrayDoc_toJ_wf (d : ArrayDoc) (h : d.good) : d.toJ.wf := by
+  rw [ArrayDoc.toJ_eq, obj_wf_iff]
+  refine ⟨?_, keysDistinct_known_extra arrayKeys arrayKeys_nodup _ (arrayDoc_knownKeys_sublist d) _ h.sorted
+    (fun kv hkv => (h.extra kv hkv).2.2)⟩
+  rw [wfKVs_iff]
+  intro kv hkv
+  unfold ArrayDoc.kvs at hkv
+  rcases List.mem_append.1 hkv with hk | hk
+  · exact ⟨arrayKeys_strOk _ ((arrayDoc_knownKeys_sublist d).subset (List.mem_map_of_mem hk)), arrayDoc_known_wf d h kv hk⟩
+  · exact (wfKVs_iff _).1 (extraKVs_wf _ (fun kv hkv => ⟨(h.extra kv hkv).1, (h.extra kv hkv).2.1⟩)) kv hk
+
+theorem groupDoc_toJ_wf (d : GroupDoc) (h : d.good) : d.toJ.wf := by
+  rw [GroupDoc.toJ_eq, obj_wf_iff]
+  refine ⟨?_, keysDistinct_known_extra groupKeys groupKeys_nodup _ (groupDoc_knownKeys_sublist d) _ h.sorted
+    (fun kv hkv => (h.extra kv hkv).2.2)⟩
+  rw [wfKVs_iff]
+  intro kv hkv
+  unfold GroupDoc.kvs at hkv
+  rcases List.mem_append.1 hkv with hk | hk
+  · refine ⟨groupKeys_strOk _ ((groupDoc_knownKeys_sublist d).subset (List.mem_map_of_mem hk)), ?_⟩
+    simp only [GroupDoc.knownKVs, List.mem_append, List.mem_cons, List.not_mem_nil, or_false] at hk
+    rcases hk with (rfl | rfl) | hk
+    · exact (num_wf_iff _).2 tokOk_three
+    · exact (str_wf_iff _).2 (strOk_ascii _ (by decide))
+    · split at hk
+      · cases hk
+      · simp only [List.mem_cons, List.not_mem_nil, or_false] at hk
+        subst hk
+        exact (obj_wf_iff _).2 h.attrs
+  · exact (wfKVs_iff _).1 (extraKVs_wf _ (fun kv hkv => ⟨(h.extra kv hkv).1, (h.extra kv hkv).2.1⟩)) kv hk
+
+theorem arrayDoc_text_roundtrip_good (d : ArrayDoc) (h : d.good) : ArrayDoc.ofText d.toText = some d := by
+  unfold ArrayDoc.ofText ArrayDoc.toText
+  rw [parse_print _ (arrayDoc_toJ_wf d h)]
+  exact arrayDoc_roundtrip_good d h
+
+theorem groupDoc_text_roundtrip_good (d : GroupDoc) (h : d.good) : GroupDoc.ofText d.toText = some d := by
+  unfold GroupDoc.ofText GroupDoc.toText
+  rw [parse_print _ (groupDoc_toJ_wf d h)]
+  exact groupDoc_roundtrip_good d h
+
+/-- small integer tokens: `tokOk_of_natTok 42 _ (by decide)` -/
+theorem tokOk_of_natTok (n : Nat) (t : List Char) (h : FillMeta.natTok n = t) : tokOk t := h ▸ NumTok.tokOk_natTok n
 
 end Zarrs.Meta
